@@ -9,25 +9,13 @@
        asked for most recently, "$N" for its current nickname (GetNick; Config.Nick when tracking is disabled); both sides
        substitute them before the event is delivered.  The pseudo command "!NICK" is the
        application calling Client.Cmd.Nick(first parameter). *)
-Require Import Bytes Utf8 Names PingNick.
+Require Import Bytes Utf8 AMap Tags Event Names PingNick.
 
 Definition nth_arg17 (n : nat) (args : list str) : str := nth n args [].
 
-(* ---- what reaches the socket (Event.Bytes for source-less, tag-less events) ---- *)
-Definition needs_colon17 (p : str) : bool :=
-  memb 32 p || match p with [] => true | c :: _ => c =? 58 end.
-
-Fixpoint render_params17 (ps : list str) : str :=
-  match ps with
-  | [] => []
-  | [p] => 32 :: (if needs_colon17 p then 58 :: p else p)
-  | p :: r => 32 :: p ++ render_params17 r
-  end.
-
-Definition strip_crlf17 (s : str) : str := filter (fun b => negb ((b =? 10) || (b =? 13))) s.
-
-Definition wire_of (o : pn_out) : str :=
-  strip_crlf17 (to_valid_utf8 [] (o_cmd o ++ render_params17 (o_params o))).
+(* ---- what reaches the socket: Event.Bytes of the codec model (Model/Event.v), for an
+   event without tags and source ---- *)
+Definition wire_of (o : pn_out) : str := event_bytes (mkWEvent None None (o_cmd o) (o_params o)).
 
 Definition route_letter (outs : list pn_out) : str :=
   match outs with
